@@ -4074,6 +4074,94 @@ let zoom1 order mode dat n_out =
     interp1 order mode dat (qmult (zq0 k) (zoom_factor (zlen dat) n_out)))
     (zseq Z0 (Z.to_nat n_out))
 
+(** val cooc_pairs : arr -> z list -> (z * z) list **)
+
+let cooc_pairs f delta =
+  flat_map (fun p ->
+    match fixpos extendIgnore f.shape (padd p delta) with
+    | Some q0 -> ((aget f p), (aget f q0)) :: []
+    | None -> []) (all_positions f.shape)
+
+(** val cooc : arr -> z list -> z -> z list **)
+
+let cooc f delta m =
+  let codes =
+    map (fun ab -> Z.add (Z.mul (fst ab) m) (snd ab)) (cooc_pairs f delta)
+  in
+  foldl_labeled (fun _ r -> Z.add r (Zpos XH)) Z0 (Z.mul m m) codes codes
+
+(** val cooc_sym : arr -> z list -> z -> z list **)
+
+let cooc_sym f delta m =
+  let c = cooc f delta m in
+  map (fun yx ->
+    Z.add (nthZ Z0 c (Z.add (Z.mul (fst yx) m) (snd yx)))
+      (nthZ Z0 c (Z.add (Z.mul (snd yx) m) (fst yx))))
+    (list_prod (zseq Z0 (Z.to_nat m)) (zseq Z0 (Z.to_nat m)))
+
+(** val roll_right : z -> z -> z **)
+
+let roll_right v points =
+  Z.add (Z.div v (Zpos (XO XH)))
+    (Z.mul (Z.modulo v (Zpos (XO XH)))
+      (Z.pow (Zpos (XO XH)) (Z.sub points (Zpos XH))))
+
+(** val lbp_map_go : nat -> z -> z -> z -> z **)
+
+let rec lbp_map_go n0 v best points =
+  match n0 with
+  | O -> best
+  | S k ->
+    let v' = roll_right v points in
+    lbp_map_go k v' (if Z.ltb v' best then v' else best) points
+
+(** val lbp_map : z -> z -> z **)
+
+let lbp_map v points =
+  lbp_map_go (Z.to_nat points) v v points
+
+(** val prefix_row : z -> z list -> z list **)
+
+let rec prefix_row acc = function
+| [] -> []
+| x :: t -> (Z.add acc x) :: (prefix_row (Z.add acc x) t)
+
+(** val next_row : z list -> z list -> z -> z -> z list **)
+
+let rec next_row prev row left upleft =
+  match prev with
+  | [] -> []
+  | u :: prev' ->
+    (match row with
+     | [] -> []
+     | x :: row' ->
+       let v = Z.sub (Z.add (Z.add x u) left) upleft in
+       v :: (next_row prev' row' v u))
+
+(** val integral_go : z list -> z list list -> z list list **)
+
+let rec integral_go prev = function
+| [] -> []
+| r :: rest ->
+  let cur = next_row prev r Z0 Z0 in cur :: (integral_go cur rest)
+
+(** val integral : z list list -> z list list **)
+
+let integral = function
+| [] -> []
+| r0 :: rest ->
+  let first = prefix_row Z0 r0 in first :: (integral_go first rest)
+
+(** val moments : arr -> z -> z -> z -> z -> z **)
+
+let moments f p0 p1 c0 c1 =
+  sumZ
+    (map (fun p ->
+      Z.mul
+        (Z.mul (Z.pow (Z.sub (nthZ Z0 p Z0) c0) p0)
+          (Z.pow (Z.sub (nthZ Z0 p (Zpos XH)) c1) p1)) (aget f p))
+      (all_positions f.shape))
+
 (** val gbernsen_px : q -> q -> q -> q -> q -> bool **)
 
 let gbernsen_px f fmax fmin contrast_threshold gthresh =
